@@ -264,7 +264,7 @@ func TestC18ConnectSetup(t *testing.T) {
 			if h.App.InCall() {
 				rt.Skip("ReadSlices is running")
 			}
-			if c := h.Current(); c != nil && c.State.Accepted {
+			if c := h.Current(); c != nil && c.Accepted() {
 				rt.Skip("online")
 			}
 			kind := rapid.SampledFrom([]string{"ok", "ok", "ok", "dial-error", "refuse", "raw", "eof", "write-fault", "read-fault", "hold", "resend-fault", "resend-fault"}).Draw(rt, "outcome")
@@ -441,7 +441,7 @@ func TestC18ConnectSetup(t *testing.T) {
 				}
 			}
 			if !wantFail {
-				if failures > 0 && h.Current() != nil && h.Current().State.Accepted {
+				if failures > 0 && h.Current() != nil && h.Current().Accepted() {
 					failedThenOK++
 				}
 				return
@@ -479,7 +479,7 @@ func TestC18ConnectSetup(t *testing.T) {
 			if h.App.InCall() {
 				rt.Skip("ReadSlices is running")
 			}
-			if c := h.Current(); c != nil && c.State.Accepted {
+			if c := h.Current(); c != nil && c.Accepted() {
 				rt.Skip("online")
 			}
 			h.Act("attempt ok with connect parked before resend")
